@@ -40,6 +40,8 @@ def run(ctx):
     ctx.run_rule("K3M1", r_consts.rule_K3_M1, cfgs)
     import r_cbudget
     ctx.run_rule("PB", r_cbudget.rule_PB)
+    import r_asmsym
+    ctx.run_rule("R1asm1", r_asmsym.rule_R1asm_single)
     try:
         import r_ffi
         ctx.run_rule("M2", r_ffi.rule_M2, [c for c in cfgs if c.startswith("asm") or c.startswith("intr")])
